@@ -135,7 +135,21 @@ fn main() {
         }
         "c02" => {
             let cfg = StreamCfg { positions: args.budget(300_000, 3_000_000), max_plies: 600, max_half: 4095, max_full: 30000 };
-            stream::run(&args, &cfg, &mut rep, &mut |p, rep, rng| c02::check(p, rep, rng));
+            stream::run_carried(&args, &cfg, &mut rep, &mut |p, rep, rng, carried| {
+                c02::check(p, rep, rng);
+                // the board carried through its own make() over the whole walk (up to 600 plies) must
+                // still spell exactly the reference position
+                if let Some(bb) = carried {
+                    rep.count("carried_board_positions");
+                    let want = p.to_fen();
+                    match adapter::fen_of(bb) {
+                        Ok(got) => if got != want {
+                            rep.violation(&format!("carried-board-drift:{}", adapter::fen_fields_diff(&got, &want)), format!("board carried along a walk spells {} but the rules give {}", got, want), monlib::json!({"kind":"c02","fen":want}));
+                        },
+                        Err(pm) => rep.violation("carried-board-fen-panic", pm, monlib::json!({"kind":"c02","fen":want})),
+                    }
+                }
+            });
         }
         "c03" => {
             let cfg = StreamCfg { positions: args.budget(300_000, 3_000_000), max_plies: 600, max_half: 4095, max_full: 30000 };
